@@ -1,5 +1,6 @@
 import PkLA.Lmi
 import PkLA.Ridge
+import PkLA.DmdcLmi
 import Mathlib.LinearAlgebra.Matrix.PosDef
 import Mathlib.Data.Real.StarOrdered
 /-! # C12 — LMI regressors minimise the regularised cost they document
@@ -100,5 +101,68 @@ theorem C12_nuclear_partial (W1 : Matrix n n ℝ) (U : Matrix n m ℝ) (W2 : Mat
     rw [dotProduct_mulVec, vecMul_transpose, dotProduct_comm]
   simp only [mulVec_neg, dotProduct_add, neg_dotProduct, dotProduct_neg, e1, neg_neg] at key
   linarith
+
+/-! ### `LmiDmdc`: the same cost in the coordinates of the two truncated SVDs -/
+section dmdc
+variable {rh rt pu pt q : Type} [Fintype rh] [Fintype rt] [Fintype pu] [Fintype pt] [Fintype q]
+  [DecidableEq rh] [DecidableEq rt] [DecidableEq pu] [DecidableEq pt] [DecidableEq q]
+
+/-- `LmiDmdc`: the constraint `block ⪯ 0` says exactly that the slack dominates the quadratic form -/
+theorem C12_dmdc_constraint (W Sh2 : Matrix rh rh ℝ) (Uh : Matrix rh (rh ⊕ pu) ℝ)
+    (C : Matrix (rh ⊕ pu) rh ℝ) (B : Matrix (rh ⊕ pu) rt ℝ) :
+    (-(dmdcLmi W Sh2 Uh C B)).PosSemidef ↔ (W - dmdcRhs Sh2 Uh C B).PosSemidef := by
+  rw [neg_dmdcLmi, C12_schur_I]
+  have : W - Sh2 + Uh * C + Cᵀ * Uhᵀ - (-Uh * B) * (-Uh * B)ᵀ = W - dmdcRhs Sh2 Uh C B := by
+    unfold dmdcRhs
+    simp only [Matrix.neg_mul, transpose_neg, Matrix.mul_neg, neg_neg]
+    abel
+  rw [this]
+
+/-- so every feasible `(Ŵ, Û)` has `tr Ŵ ≥` the quadratic form, and the tight slack is feasible -/
+theorem C12_dmdc_epigraph (W Sh2 : Matrix rh rh ℝ) (Uh : Matrix rh (rh ⊕ pu) ℝ)
+    (C : Matrix (rh ⊕ pu) rh ℝ) (B : Matrix (rh ⊕ pu) rt ℝ) :
+    ((-(dmdcLmi W Sh2 Uh C B)).PosSemidef → (dmdcRhs Sh2 Uh C B).trace ≤ W.trace)
+    ∧ (-(dmdcLmi (dmdcRhs Sh2 Uh C B) Sh2 Uh C B)).PosSemidef := by
+  constructor
+  · intro h
+    have := ((C12_dmdc_constraint W Sh2 Uh C B).mp h).trace_nonneg
+    rw [trace_sub] at this
+    linarith
+  · rw [C12_dmdc_constraint, sub_self]
+    exact Matrix.PosSemidef.zero
+
+/-- **`LmiDmdc` minimises the documented cost in SVD coordinates** (the repaired cross term): at the tight slack the
+objective `tr Ŵ` is `‖Σ̂ Ẑᵀ − Û Q̄ Σ̃ Z̃ᵀ‖² + α‖Û Q̄‖²`, i.e. the regularised least-squares cost of `LmiEdmd`
+projected on the retained left singular vectors of the target (`dmdc_residual`) -/
+theorem C12_dmdc_cost (Qb : Matrix (rh ⊕ pu) rt ℝ) (St Str : Matrix rt rt ℝ) (Sh : Matrix rh rh ℝ)
+    (Zt : Matrix q rt ℝ) (Zh : Matrix q rh ℝ) (α : ℝ) (Uh : Matrix rh (rh ⊕ pu) ℝ)
+    (hSt : Stᵀ = St) (hSh : Shᵀ = Sh) (hStr : Str * Strᵀ = St * St + α • (1 : Matrix rt rt ℝ))
+    (hZt : Ztᵀ * Zt = 1) (hZh : Zhᵀ * Zh = 1) :
+    (dmdcRhs (Sh * Sh) Uh (dmdcCross Qb St Zt Zh Sh) (Qb * Str)).trace
+      = fro2 (Sh * Zhᵀ - Uh * Qb * St * Ztᵀ) + α * fro2 (Uh * Qb) :=
+  dmdc_cost Qb St Str Sh Zt Zh α Uh hSt hSh hStr hZt hZh
+
+/-- and the defect F-dmdc, as a theorem: had the cross term used the REGULARISED `Σ̃_reg` (as the code did before the
+repair), the objective would differ from that cost by `2 tr(Û Q̄ (Σ̃_reg − Σ̃) Z̃ᵀ Ẑ Σ̂)` — non-zero whenever α > 0 -/
+theorem C12_dmdc_defect (Qb : Matrix (rh ⊕ pu) rt ℝ) (St Str : Matrix rt rt ℝ) (Sh : Matrix rh rh ℝ)
+    (Zt : Matrix q rt ℝ) (Zh : Matrix q rh ℝ) (Uh : Matrix rh (rh ⊕ pu) ℝ) :
+    (dmdcRhs (Sh * Sh) Uh (dmdcCross Qb St Zt Zh Sh) (Qb * Str)).trace
+      - (dmdcRhs (Sh * Sh) Uh (dmdcCross Qb Str Zt Zh Sh) (Qb * Str)).trace
+      = 2 * (Uh * (Qb * (Str - St) * Ztᵀ * Zh * Sh)).trace := by
+  unfold dmdcRhs dmdcCross
+  have e : ∀ M : Matrix (rh ⊕ pu) rh ℝ, (Mᵀ * Uhᵀ).trace = (Uh * M).trace := by
+    intro M; rw [← transpose_mul, trace_transpose]
+  simp only [trace_add, trace_sub, e]
+  have : Uh * (Qb * (Str - St) * Ztᵀ * Zh * Sh)
+      = Uh * (Qb * Str * Ztᵀ * Zh * Sh) - Uh * (Qb * St * Ztᵀ * Zh * Sh) := by
+    simp only [Matrix.mul_sub, Matrix.sub_mul]
+  rw [this, trace_sub]
+  ring
+
+/-- the hypotheses of `C12_dmdc_cost` are satisfiable (identity factors, no regularisation) -/
+example : ((1 : Matrix (Fin 2) (Fin 2) ℝ))ᵀ = 1 ∧ (1 : Matrix (Fin 2) (Fin 2) ℝ) * 1ᵀ = 1 * 1 + (0 : ℝ) • 1
+    ∧ (1 : Matrix (Fin 2) (Fin 2) ℝ)ᵀ * 1 = 1 := by simp
+
+end dmdc
 
 end Pk.C12
